@@ -15,6 +15,12 @@ def check(run):
                        'c19', parallel=8, timeout=3000)
     run.sample_from(traces[0], 3)
     run.validate('Rec_Exec', recfam.rec_cfg('Rec_Exec', INV), traces, 'rec', parallel=8)
+    import os
+    for t in traces[:3]:
+        rc, out = run.tlc('Rec_Exec', recfam.rec_cfg('Rec_Exec', ['C19_HealthySucceeds']), 'conf_' + os.path.basename(t), workers=1, env=dict(VERIF_TRACE=t))
+        if vlib.parse_violation(out):
+            run.cov['drift'].append(dict(trace=os.path.basename(t), note='a healthy command returned an error'))
+            vlib.log('[DRIFT] %s: a healthy command returned an error' % os.path.basename(t))
     n = recfam.count_lines(traces)
     modes = set()
     import json
